@@ -32,9 +32,28 @@ SkipZeros(f, j, e) == IF j < e /\ At(f, j) = 48 THEN SkipZeros(f, j + 1, e) ELSE
 RECURSIVE DecVal(_, _, _)
 DecVal(f, j, e) == IF j >= e THEN 0 ELSE DecVal(f, j, e - 1) * 10 + (At(f, e - 1) - 48)
 
+(* The parser stores static_cast<int>(strtol(...)): the long value narrowed to 32 bits.   *)
+(* Numerals of up to 9 significant digits are evaluated directly; longer ones through   *)
+(* the low 32 bits of the decimal value (two 16-bit limbs), after the saturation of     *)
+(* strtol at LONG_MAX / LONG_MIN (whose int narrowings are -1 / 0).                      *)
+RECURSIVE Low32(_, _, _)
+Low32(f, z, e) == IF z >= e THEN <<0, 0>>
+                  ELSE LET p == Low32(f, z, e - 1)
+                           lo10 == p[2] * 10 + (At(f, e - 1) - 48)
+                       IN << (p[1] * 10 + lo10 \div 65536) % 65536, lo10 % 65536 >>
+Neg32(v) == IF v = <<0, 0>> THEN v
+            ELSE << (65536 - v[1] - (IF v[2] # 0 THEN 1 ELSE 0)) % 65536, (65536 - v[2]) % 65536 >>
+Int32(v) == IF v[1] < 32768 THEN v[1] * 65536 + v[2]
+            ELSE 0 - ((65535 - v[1]) * 65536 + (65535 - v[2])) - 1
+LongMaxDigits == <<57, 50, 50, 51, 51, 55, 50, 48, 51, 54, 56, 53, 52, 55, 55, 53, 56, 48, 55>>     \* 9223372036854775807
+LongMinDigits == <<57, 50, 50, 51, 51, 55, 50, 48, 51, 54, 56, 53, 52, 55, 55, 53, 56, 48, 56>>     \* magnitude of LONG_MIN
+RECURSIVE DigitsGreater(_, _, _, _)
+DigitsGreater(f, z, lim, k) ==        \* the 19 digits f[z..z+18] > lim, comparing from position k
+    IF k > 19 THEN FALSE
+    ELSE IF At(f, z + k - 1) # lim[k] THEN At(f, z + k - 1) > lim[k]
+    ELSE DigitsGreater(f, z, lim, k + 1)
+
 (* result: [val, end, modelled]; end = j when no digits were consumed.      *)
-(* 10..19 significant digits are not modelled (the generators avoid them);  *)
-(* 20 or more saturate to LONG_MAX / LONG_MIN, whose int narrowing is -1/0. *)
 StrToL(f, j) ==
     LET a   == SkipSpace(f, j)
         neg == At(f, a) = 45
@@ -42,10 +61,11 @@ StrToL(f, j) ==
         e   == DigitsEnd(f, b)
         z   == SkipZeros(f, b, e)
         nd  == e - z
+        sat == nd >= 20 \/ (nd = 19 /\ DigitsGreater(f, z, IF neg THEN LongMinDigits ELSE LongMaxDigits, 1))
     IN IF e = b THEN [val |-> 0, end |-> j, modelled |-> TRUE]
        ELSE IF nd <= 9 THEN [val |-> (IF neg THEN 0 - DecVal(f, z, e) ELSE DecVal(f, z, e)), end |-> e, modelled |-> TRUE]
-       ELSE IF nd >= 20 THEN [val |-> (IF neg THEN 0 ELSE -1), end |-> e, modelled |-> TRUE]
-       ELSE [val |-> 0, end |-> e, modelled |-> FALSE]
+       ELSE IF sat THEN [val |-> (IF neg THEN 0 ELSE -1), end |-> e, modelled |-> TRUE]
+       ELSE [val |-> Int32(IF neg THEN Neg32(Low32(f, z, e)) ELSE Low32(f, z, e)), end |-> e, modelled |-> TRUE]
 
 (* ---- parse_format(): i is the index m_format_str points at --------------*)
 (* result: [res |-> "ok" | "bad_format" | "unmodelled", spec, next, maxread] *)
@@ -128,7 +148,7 @@ PadChar(sp) == IF sp.pad # 0 THEN sp.pad ELSE 32
 (* strings and booleans: cut to the precision, then pad (left-aligned by default) *)
 RenderText(sp, text) ==
     LET t == IF sp.prec >= 0 /\ Len(text) > sp.prec THEN SubSeq(text, 1, sp.prec) ELSE text
-        n == sp.minlen - Len(t) IN
+        n == (IF sp.minlen < 0 THEN 0 ELSE sp.minlen) - Len(t) IN      \* a negative width never pads
     IF sp.minlen > Len(t)
     THEN IF sp.align = "right" THEN Rep(PadChar(sp), n) \o App(t) ELSE App(t) \o Rep(PadChar(sp), n)
     ELSE App(t)
@@ -144,7 +164,7 @@ NumPrefix(sp, v) ==                \* sign, then radix prefix (none for zero)
 RenderNumber(sp, v) ==
     LET ds   == Digits(v.m, Radix(sp), sp.digit = "HEX")
         pre  == NumPrefix(sp, v)
-        psz  == sp.minlen - Len(ds) - Len(Bytes(pre))
+        psz  == (IF sp.minlen < 0 THEN 0 ELSE sp.minlen) - Len(ds) - Len(Bytes(pre))
         pad  == Rep(PadChar(sp), psz)
     IN IF sp.numpad THEN pre \o pad \o App(ds)                     \* zero padding: between prefix and digits
        ELSE IF sp.align = "left" THEN pre \o App(ds) \o pad
